@@ -486,3 +486,12 @@ spec fn cw_built<V>(st: Seq<State>, table: Seq<u32>, n: NfaBuilder<char, V>, idm
     &&& cw_encodes(st, table, n, idmap)
     &&& forall|x: int| 0 <= x < st.len() ==> (#[trigger] st[x]).output_pos.is_none() || slot_used_cw(n, idmap, x)
 }
+
+// termination measure of the placement loop: the set of finished states grows inside 0..n
+proof fn lemma_done_grows(done: Set<int>, sid: int, n: int)
+    requires done.subset_of(vstd::set_lib::set_int_range(0, n)), 0 <= sid < n, !done.contains(sid),
+    ensures done.insert(sid).subset_of(vstd::set_lib::set_int_range(0, n)), done.insert(sid).len() == done.len() + 1, done.insert(sid).len() <= n,
+{
+    vstd::set_lib::lemma_int_range(0, n);
+    vstd::set_lib::lemma_len_subset(done.insert(sid), vstd::set_lib::set_int_range(0, n));
+}
